@@ -71,7 +71,13 @@ func (g *tgen) gen(d int, name string) *types.Type {
 	case 4:
 		return ObjT([]string{"a"}, []*types.Type{g.gen(d-1, name+".a")})
 	case 5:
-		a, b := g.gen(d-1, name+".a"), g.gen(d-1, name+".b")
+		// (at depth 2 the two-field constructors take leaves: the number of
+		// pairs of types has to stay within the path budget)
+		dd := d - 1
+		if d >= 2 {
+			dd = 0
+		}
+		a, b := g.gen(dd, name+".a"), g.gen(dd, name+".b")
 		// two fields: the names {a,b} in both orders, and name sets that
 		// differ from it in one name, in both positions
 		switch sv.Choice(name+".order", 5) {
@@ -87,7 +93,11 @@ func (g *tgen) gen(d int, name string) *types.Type {
 			return ObjT([]string{"c", "b"}, []*types.Type{a, b})
 		}
 	default:
-		return types.Fun("f", []*types.Type{g.gen(d-1, name+".p")}, g.gen(d-1, name+".r"))
+		dd := d - 1
+		if d >= 2 {
+			dd = 0
+		}
+		return types.Fun("f", []*types.Type{g.gen(dd, name+".p")}, g.gen(dd, name+".r"))
 	}
 }
 
@@ -233,7 +243,7 @@ func genDepth() int {
 func H17_equals() {
 	g := &tgen{va: types.TyVar("a"), vb: types.TyVar("b"), vars: true}
 	s := g.gen(genDepth(), "s")
-	t := g.gen(genDepth(), "t")
+	t := g.gen(1, "t") // (thorough: depth 2 against depth 1 - 2 000 x 260 pairs)
 	want := RefTypeEq(s, t)
 	sv.Assert("equals-iff-structurally-identical", types.Equals(s, t) == want)
 	sv.Assert("symmetric", types.Equals(t, s) == want)
@@ -264,7 +274,7 @@ func H17_trans() {
 func H17_unify() {
 	g := &tgen{va: types.TyVar("a"), vb: types.TyVar("b"), vars: true}
 	s := g.gen(genDepth(), "s")
-	t := g.gen(genDepth(), "t")
+	t := g.gen(1, "t")
 	m := map[string]*types.Type{}
 	var u *types.Type
 	cls := sv.Outcome(func() { u = types.Unify(s, t, m) })
@@ -274,7 +284,14 @@ func H17_unify() {
 	}
 	if u != nil {
 		sv.Reach("unified")
-		sa, ta := refApply(s, m, 8), refApply(t, m, 8)
+		var sa, ta *types.Type
+		// a variable in map-key position may have been bound to a type that is
+		// not a key type; the type constructors refuse to build that, and the
+		// statement says nothing about it
+		if sv.Outcome(func() { sa, ta = refApply(s, m, 8), refApply(t, m, 8) }) != "ok" {
+			sv.Reach("substitution-not-a-type")
+			return
+		}
 		sv.Assert("substitution-makes-both-sides-equal", RefTypeEq(sa, ta))
 		for name, img := range m {
 			sv.Assert("no-variable-bound-to-a-type-containing-it", !refOccurs(name, refApply(img, m, 8)) || (img.Kind == types.KTyVar && img.TyVar().Name == name))
